@@ -79,6 +79,16 @@ class Compiler:
 
     @_compile.register
     def _select(self, node: ast.Select):
+        # Each SELECT resolves its columns against the table named by its
+        # own FROM clause. Restore the table of the enclosing statement
+        # once a nested SELECT has been compiled.
+        table = self.table
+        try:
+            return self._compile_select(node)
+        finally:
+            self.table = table
+
+    def _compile_select(self, node):
 
         # Compile the FROM clause.
         c_from_expr = self._compile_from(node.from_clause)
